@@ -58,6 +58,11 @@ def build_overlay(cfg, work):
                 src = os.path.join(VERIF, "harness", f)
             dst = os.path.join(REPO, u["package"], "zz_verif_%s_%s" % (cfg["property"].lower(), os.path.basename(f)))
             replace[dst] = src
+    # non-test verif-tagged files placed into OTHER packages (exported wrappers a harness in another package needs)
+    for o in cfg.get("overlay_files", []):
+        src = os.path.join(cfg["_dir"], o["file"])
+        dst = os.path.join(REPO, o["package"], "zz_verif_%s_%s" % (cfg["property"].lower(), os.path.basename(o["file"])))
+        replace[dst] = src
     # shared in-package helper files
     for u in cfg["units"]:
         for f in u.get("shared", []):
